@@ -23,6 +23,14 @@ class Machine(Interp):
             raise Unsupported(f"expression {type(n).__name__} at line {getattr(n, 'lineno', '?')}")
         return m(n, fr)
 
+    def ev_Slice(self, n, fr):
+        lo = self.ev(n.lower, fr) if n.lower else None
+        hi = self.ev(n.upper, fr) if n.upper else None
+        st = self.ev(n.step, fr) if n.step else None
+        if any(isinstance(x, SV) for x in (lo, hi, st)):
+            raise Unsupported("symbolic slice bound")
+        return slice(lo, hi, st)
+
     def ev_Constant(self, n, fr):
         return n.value
 
@@ -207,6 +215,8 @@ class Machine(Interp):
             items = v.items if isinstance(v, PyList) else v
             if isinstance(k, SInt):
                 raise Unsupported("symbolic index into concrete sequence")
+            if isinstance(k, slice):
+                return PyList(items[k]) if isinstance(v, PyList) else items[k]
             if isinstance(k, bool) or not isinstance(k, int):
                 if isinstance(k, bool):
                     k = int(k)
@@ -240,6 +250,9 @@ class Machine(Interp):
             self.ctx.effect("mutate", (v, "__setitem__"))
             if isinstance(k, SV):
                 raise Unsupported("symbolic index store")
+            if isinstance(k, slice):
+                v.items[k] = self.to_list(val)
+                return
             try:
                 v.items[k] = val
             except IndexError:
